@@ -190,15 +190,15 @@ fn in_range(net: &RealNet, i: usize, key: &RecordKey, range: &Option<ant_evm::U2
 /// through the real periodic replication.
 pub fn c09_case(cx: &mut Cx) {
     let n = cx.rng.gen_range(6..=9);
-    let Some(net) = start(cx, "c09r", &vec![true; n]) else { return };
-    let res = c09_inner(cx, &net, n);
+    let Some(mut net) = start(cx, "c09r", &vec![true; n]) else { return };
+    let res = c09_inner(cx, &mut net, n);
     if res.is_none() {
         cx.count("realnet:cases-abandoned");
     }
     net.shutdown();
 }
 
-fn c09_inner(cx: &mut Cx, net: &RealNet, n: usize) -> Option<()> {
+fn c09_inner(cx: &mut Cx, net: &mut RealNet, n: usize) -> Option<()> {
     let mut kinds = vec![Kind::Chunk, Kind::Chunk, Kind::Pad, Kind::Tx, Kind::Reg];
     for _ in 0..cx.rng.gen_range(0..4) {
         kinds.push(*[Kind::Chunk, Kind::Pad, Kind::Tx, Kind::Reg].choose(&mut cx.rng).expect("nonempty"));
@@ -303,9 +303,11 @@ fn c09_inner(cx: &mut Cx, net: &RealNet, n: usize) -> Option<()> {
     // a paid upload the payee did not keep: judged below together with the periodic rounds (persistence rule)
     // ---- divergence seeded silently on single nodes (no validation, no fresh replication)
     let mut versions: Vec<Vec<Held>> = items.iter().map(|it| vec![held(it.kind, Some(it.first.clone()))]).collect();
+    let mut seeded_on: Vec<usize> = vec![];
     for (k, it) in items.iter().enumerate() {
         for rec in &it.later {
             let node = cx.rng.gen_range(0..n);
+            seeded_on.push(node);
             if let Err(e) = net.seed_local(node, rec.clone()) {
                 cx.count("realnet:abandoned:harness-error");
                 cx.log(e);
@@ -314,6 +316,25 @@ fn c09_inner(cx: &mut Cx, net: &RealNet, n: usize) -> Option<()> {
             versions[k].push(held(it.kind, Some(rec.clone())));
             cx.count(&format!("realnet:divergent-versions-seeded:{:?}", it.kind));
         }
+    }
+    // half of the cases: one of the nodes that were given a newer version is torn down and restarted over its
+    // directory before the periodic rounds (it must advertise, after the restart, the versions it really holds)
+    let mut restarted: Option<usize> = None;
+    if !seeded_on.is_empty() && cx.rng.gen_bool(0.5) {
+        let victim = *seeded_on.choose(&mut cx.rng).expect("nonempty");
+        restarted = Some(victim);
+        settle(cx, net)?;
+        net.crash(victim);
+        if let Err(e) = net.restart(victim, FORM_WATCHDOG) {
+            cx.count("realnet:abandoned:restart");
+            cx.log(e);
+            return None;
+        }
+        if !net.wait_formed(Instant::now() + FORM_WATCHDOG) {
+            cx.count("realnet:abandoned:formation");
+            return None;
+        }
+        cx.count("realnet:holder-of-a-newer-version-restarted-before-the-rounds");
     }
     // what is held anywhere once the seeding is done: a later seed on the same node replaces an earlier one there,
     // so the union of what the nodes actually hold (not of what was handed out) is what can be converged on
@@ -338,7 +359,7 @@ fn c09_inner(cx: &mut Cx, net: &RealNet, n: usize) -> Option<()> {
     // ---- periodic rounds
     let mut prev: Option<Vec<Vec<Held>>> = None;
     let mut stalls = 0;
-    let max_rounds = 12;
+    let max_rounds = 30;
     for round in 1..=max_rounds {
         let mut order: Vec<usize> = (0..n).collect();
         order.shuffle(&mut cx.rng);
@@ -414,6 +435,26 @@ fn c09_inner(cx: &mut Cx, net: &RealNet, n: usize) -> Option<()> {
             cx.sample(json!({"lane": "real network", "nodes": n, "keys": items.len(), "formed_in_ms": net.formed_in.as_millis() as u64, "fresh_copies": fresh_copies, "converged_after_periodic_rounds": round, "every_node_equal": all_equal}));
             return Some(());
         }
+        // a fetch that is still in flight (e.g. towards a peer that went away meanwhile) runs into its 20 s time-out
+        // and until then keeps other versions of its key waiting: nothing is final while one exists
+        let mut in_flight = 0usize;
+        for i in 0..n {
+            match net.with_driver(i, |d| d.verif_fetcher_snapshot().on_going_fetches.len()) {
+                Ok(c) => in_flight += c,
+                Err(e) => {
+                    cx.count("realnet:abandoned:harness-error");
+                    cx.log(e);
+                    return None;
+                }
+            }
+        }
+        if in_flight > 0 {
+            cx.count("realnet:rounds-with-fetches-still-in-flight");
+            stalls = 0;
+            prev = None;
+            std::thread::sleep(Duration::from_secs(2));
+            continue;
+        }
         if prev.as_ref() == Some(&st) {
             stalls += 1;
         } else {
@@ -427,6 +468,22 @@ fn c09_inner(cx: &mut Cx, net: &RealNet, n: usize) -> Option<()> {
                 (Held::None, kd) => format!("realnet:record-not-replicated-to-in-range-neighbour:{kd:?}"),
                 (_, kd) => format!("realnet:replicas-did-not-converge:{kd:?}"),
             };
+            let issues = net.with_driver(i, |d| d.verif_node_issues()).unwrap_or_default();
+            let issues: Vec<String> = issues.iter().map(|(p, v, bad)| format!("node{:?}:{v:?}:bad={bad}", net.nodes.iter().position(|x| x.peer == *p))).collect();
+            cx.log(format!("node {i} issue book: {issues:?}; restarted: {restarted:?}"));
+            if cx.verbose {
+                let idx = |p: &PeerId| net.nodes.iter().position(|x| x.peer == *p);
+                let snap = net.with_driver(i, |d| d.verif_fetcher_snapshot());
+                if let Ok(sn) = snap {
+                    cx.log(format!("node {i} fetcher: queued {:?} inflight {:?} range {:?} farthest {:?}", sn.to_be_fetched.iter().map(|(_, t, p, s)| (format!("{t:?}"), idx(p), *s)).collect::<Vec<_>>(), sn.on_going_fetches.iter().map(|(_, t, p, s)| (format!("{t:?}"), idx(p), *s)).collect::<Vec<_>>(), sn.distance_range.is_some(), sn.farthest_acceptable_distance.is_some()));
+                }
+                for h in 0..n {
+                    let me = NetworkAddress::from_peer(net.nodes[h].peer);
+                    let cands = net.with_driver(h, move |d| d.verif_get_replicate_candidates(&me)).unwrap_or_default();
+                    let kc = net.with_driver(h, |d| d.verif_closest_k_value_local_peers()).unwrap_or_default();
+                    cx.log(format!("node {h}: holds {} ; real replicate candidates {:?} ; closest-k {:?} ; listed type {:?}", short(&st[k][h]), cands.iter().map(idx).collect::<Vec<_>>(), kc.iter().map(idx).collect::<Vec<_>>(), net.addresses(h).ok().and_then(|m| m.get(&it.key.to_vec()).cloned())));
+                }
+            }
             cx.violation(sig, format!("after {round} periodic rounds, the last 3 without any change anywhere: node {i} holds {} although the holders that count it among their 5 closest peers hold content merging to {} ({} node/key pairs short)", short(&st[k][i]), short(&required), missing.len()), json!({"nodes": n, "round": round, "kind": format!("{:?}", it.kind), "row": st[k].iter().map(short).collect::<Vec<_>>(), "targets_of": targets_of}));
             return Some(());
         }
